@@ -264,6 +264,8 @@ def evaluate(bib, texts: List[str], how: str = "split", shards: int = 16, gramma
         rec["diff"] = diff
         rec["grammar"] = r["rec"]
         rec["lib"] = r["lib"]
+        rec["parsed"] = r["parsed"]
+        rec["out"] = r["out"]
         if not r["libok"]:
             raise core.MachineryError("the composed specification violates DupOK (R5) on " + repr(rec["text"][:200]))
         del rec["toks"]
